@@ -19,6 +19,8 @@ fn gen_list(rng: &mut Rng) -> (Vec<(Universal2DBox, Option<f32>)>, f32, Option<f
     let rotated = rng.chance(0.5);
     let with_scores = rng.usize(3); // 0 none, 1 all, 2 mixed
     let nclusters = 1 + rng.usize(4);
+    let co_oriented = rng.chance(0.35);
+    let shared_angle = rng.uniform(0.2, 2.9) as f32;
     let centres: Vec<(f64, f64, f64)> = (0..nclusters).map(|_| (rng.uniform(0.0, 500.0), rng.uniform(0.0, 500.0), rng.log_uniform(5.0, 80.0))).collect();
     let mut v: Vec<(Universal2DBox, Option<f32>)> = vec![];
     for i in 0..n {
@@ -28,7 +30,9 @@ fn gen_list(rng: &mut Rng) -> (Vec<(Universal2DBox, Option<f32>)>, f32, Option<f
             "nested" => (c.0 + rng.uniform(-0.1, 0.1) * c.2, c.1 + rng.uniform(-0.1, 0.1) * c.2, c.2 * rng.uniform(0.2, 1.5), rng.uniform(0.5, 2.0)),
             _ => (c.0 + rng.uniform(-1.0, 1.0) * c.2, c.1 + rng.uniform(-1.0, 1.0) * c.2, c.2 * rng.uniform(0.5, 1.5), rng.uniform(0.3, 3.0)),
         };
-        let angle = if rotated && rng.chance(0.7) { Some(rng.uniform(0.0, 3.2) as f32) } else { None };
+        // co-oriented lists (all boxes share one non-zero angle, e.g. a row of parked cars) are a case of their own:
+        // equal angles are where an axis-aligned shortcut would be tempting
+        let angle = if rotated && co_oriented { Some(shared_angle) } else if rotated && rng.chance(0.7) { Some(rng.uniform(0.0, 3.2) as f32) } else { None };
         let mut b = Universal2DBox::new(xc as f32, yc as f32, angle, asp as f32, h as f32);
         if (style == "duplicated" || style == "mixed") && i > 0 && rng.chance(0.3) {
             let j = rng.usize(v.len());
@@ -70,7 +74,7 @@ fn gen_list(rng: &mut Rng) -> (Vec<(Universal2DBox, Option<f32>)>, f32, Option<f
 fn main() {
     let cli = Cli::parse();
     let mut rep = Report::new("C14", &cli);
-    rep.note("rule", json!("case = list of 0..40 boxes (clustered / sparse / nested / duplicated / mixed, rotated or not, scores none / all / mixed, ~4% invalid boxes), nms threshold in (0,1), score threshold None / below / inside / above. Outputs are mapped to input indices by pointer identity. Checked: subset & filter, non-increasing rank, top-ranked eligible kept, no kept box covered beyond threshold (+1e-4 band) by an earlier kept box, every dropped eligible box covered beyond threshold (-1e-4 band) by some kept box of rank >= its own, nms(nms(x)) == nms(x). Coverage reference = f64 convex intersection / area. Non-trivial: at least one box dropped by suppression and at least two kept; distinct by hash of the list."));
+    rep.note("rule", json!("case = list of 0..40 boxes (clustered / sparse / nested / duplicated / mixed, rotated or not - 35% of the rotated lists co-oriented (one shared non-zero angle) -, scores none / all / mixed, ~4% invalid boxes), nms threshold in (0,1), score threshold None / below / inside / above. Outputs are mapped to input indices by pointer identity. Checked: subset & filter, non-increasing rank, top-ranked eligible kept, no kept box covered beyond threshold (+1e-4 band) by an earlier kept box, every dropped eligible box covered beyond threshold (-1e-4 band) by some kept box of rank >= its own, nms(nms(x)) == nms(x). Coverage reference = f64 convex intersection / area. Non-trivial: at least one box dropped by suppression and at least two kept; distinct by hash of the list."));
     rep.note("assumptions", json!(["finite scores and coordinates", "rank ties: either order accepted (only non-increasing ranks are required)"]));
     let n = cli.cases(20_000, 1_000_000);
     for idx in cli.index_range(n) {
